@@ -555,6 +555,8 @@ pub fn gen_seq(rng: &mut Rng, max_len: usize) -> Case {
         }
     };
     let mut attempts = 0;
+    // a few runs push a long backlog through an unbounded channel (the queue starts with room for 32 values)
+    let bulk = cap == Cap::Unbounded && rng.chance(1, 6);
     // a share of the runs starts with a wait-list stress phase: several pending futures of one side are
     // registered, some are dropped / re-polled, then the other side is served
     let stress = rng.chance(1, 5);
@@ -598,6 +600,25 @@ pub fn gen_seq(rng: &mut Rng, max_len: usize) -> Case {
             forced.push(Op::FutPoll { f: j as u8, new_waker: false });
         }
         forced.reverse();
+    }
+    if bulk {
+        let n = rng.range(30, 75);
+        let mut b = Vec::new();
+        for _ in 0..n {
+            b.push(match rng.below(8) {
+                0 | 1 => Op::TrySend { h: 0, id: 0 },
+                2 => Op::TrySendOpt { h: 0, id: 0 },
+                3 | 4 => Op::TrySendRt { h: 0, id: 0 },
+                5 => Op::TrySendOptRt { h: 0, id: 0 },
+                6 => Op::SendTimeout { h: 0, id: 0, us: 0 },
+                _ => Op::Observe { h: 1, what: Obs::Len },
+            });
+        }
+        for _ in 0..rng.range(0, 40) {
+            b.push(if rng.chance(1, 6) { Op::Drain { h: 1, pre: 0, spare: 0 } } else { Op::TryRecv { h: 1 } });
+        }
+        b.reverse();
+        forced.extend(b);
     }
     while ops.len() < len || !forced.is_empty() {
         attempts += 1;
@@ -717,7 +738,12 @@ pub fn gen_seq(rng: &mut Rng, max_len: usize) -> Case {
         let op = match forced.pop() {
             Some(mut f) => {
                 match &mut f {
-                    Op::TrySend { id, .. } | Op::FutSend { id, .. } | Op::SendTimeout { id, .. } | Op::TrySendOpt { id, .. } => *id = next_id,
+                    Op::TrySend { id, .. }
+                    | Op::FutSend { id, .. }
+                    | Op::SendTimeout { id, .. }
+                    | Op::TrySendOpt { id, .. }
+                    | Op::TrySendRt { id, .. }
+                    | Op::TrySendOptRt { id, .. } => *id = next_id,
                     _ => {}
                 }
                 Some(f)
